@@ -4,6 +4,8 @@
 cd "$(dirname "$0")/.."
 R=${VERIF_REPO:-/repo}
 out=${1:-/tmp/regress_seeds.txt}; : > $out
+# a snapshot of the repository lacks the git-ignored build product pyhf/_version.py
+[ -f $R/src/pyhf/_version.py ] || cp /repo/src/pyhf/_version.py $R/src/pyhf/_version.py
 (cd lean && lake build > /dev/null 2>&1)
 for d in seeded/*/; do
   n=$(basename $d); pid=${n%%-*}
